@@ -5,6 +5,7 @@
    establish are refuted one by one in Props/C03.v (accepted, yet not well-formed). *)
 From PV Require Import Lib.Py Spec.IRSyntax Spec.CfgSpec Spec.IRWf Model.DomRef Model.IRWfCheck
   Model.Verify Proofs.C25_ref Proofs.C03_wf.
+
 From Coq Require Import String.
 Open Scope nat_scope.
 
@@ -54,18 +55,19 @@ Definition wf_phi_preds_weak (f : func) : Prop :=
     forall pb, is_pred f pb (s_blk s) -> In pb (map fst ins).
 
 Section S.
+Variable vx : vfixes.
 Variable m : modul.
 Variable f : func.
 Variable st : vstate.
-Hypothesis HV : verify_function m f st = Ok tt.
+Hypothesis HV : verify_function vx m f st = Ok tt.
 
 Lemma verify_parts :
   all_ok (check_block_head f) (enum (f_blocks f)) = Ok tt /\
   negb (Nat.eqb (List.length (f_blocks f)) 0) = true /\
   reachable_b f = true /\
   forallb (preds_match f st) (enum (f_blocks f)) = true /\
-  all_ok (check_phi_inputs st) (sites f) = Ok tt /\
-  all_ok (verify_instruction m f st) (sites f) = Ok tt.
+  all_ok (check_phi_inputs vx st) (sites f) = Ok tt /\
+  all_ok (verify_instruction vx m f st) (enum (sites f)) = Ok tt.
 Proof.
   unfold verify_function in HV.
   apply bind_ok_unit in HV. destruct HV as [H1 H].
@@ -118,7 +120,9 @@ Lemma v_dom : uses_cover f st -> wf_dom f.
 Proof.
   intros HC s Hs Hphi v Hv.
   destruct verify_parts as (_ & _ & _ & _ & _ & H).
-  pose proof (all_ok_spec _ _ H _ Hs) as C. unfold verify_instruction in C.
+  destruct (enum_In _ _ Hs) as [idx Hidx].
+  pose proof (all_ok_spec _ _ H _ Hidx) as C. unfold verify_instruction in C.
+  apply bind_ok_unit in C. destruct C as [_ C].
   apply bind_ok_unit in C. destruct C as [_ C].
   apply bind_ok_unit in C. destruct C as [_ C].
   pose proof (all_ok_spec _ _ C _ (HC s Hs _ Hv)) as D. cbn beta in D.
@@ -138,6 +142,7 @@ Proof.
   rewrite forallb_forall in H4. apply preds_of_spec in Hp. apply H4 in Hp.
   apply mem_pos_In in Hp.
   pose proof (all_ok_spec _ _ H5 _ Hs) as C. unfold check_phi_inputs in C. rewrite E in C.
+  apply bind_ok_unit in C. destruct C as [_ C].
   pose proof (all_ok_spec _ _ C _ Hp) as D. cbn beta in D.
   unfold phi_get in D. destruct (find (fun p => Pos.eqb (fst p) pb) ins) as [p|] eqn:F;
     [|discriminate].
@@ -146,16 +151,320 @@ Proof.
 Qed.
 End S.
 
-Theorem verifier_sound_partial m f st :
-  verify_function m f st = Ok tt -> uses_cover f st ->
-  wf_entry f /\ wf_shape f /\ wf_reachable f /\ wf_dom f /\ wf_phi_preds_weak f.
+
+
+(* ---------------------------------------------------------------- list facts *)
+Lemma enum_nth_gen {A} (l : list A) : forall s i x,
+  In (i, x) (combine (seq s (List.length l)) l) -> s <= i /\ nth_error l (i - s) = Some x.
+Proof.
+  induction l as [|y r IH]; cbn; [tauto|].
+  intros s i x [E|H].
+  - injection E as <- <-. split; [lia|]. now rewrite Nat.sub_diag.
+  - apply IH in H. destruct H as [H1 H2]. split; [lia|].
+    replace (i - s) with (S (i - S s)) by lia. exact H2.
+Qed.
+Lemma enum_nth {A} (l : list A) i x : In (i, x) (enum l) -> nth_error l i = Some x.
+Proof. intro H. apply enum_nth_gen in H. rewrite Nat.sub_0_r in H. tauto. Qed.
+Lemma nth_enum_gen {A} (l : list A) : forall s i x,
+  nth_error l i = Some x -> In (s + i, x) (combine (seq s (List.length l)) l).
+Proof.
+  induction l as [|y r IH]; intros s [|i] x H; cbn in *; try discriminate.
+  - injection H as ->. left. f_equal. lia.
+  - right. replace (s + S i) with (S s + i) by lia. now apply IH.
+Qed.
+Lemma nth_enum {A} (l : list A) i x : nth_error l i = Some x -> In (i, x) (enum l).
+Proof. intro H. apply (nth_enum_gen l 0) in H. exact H. Qed.
+
+Lemma map_snd_enum_gen {A} (l : list A) : forall s, map snd (combine (seq s (List.length l)) l) = l.
+Proof. induction l as [|y r IH]; cbn; auto. intro s. now rewrite IH. Qed.
+Lemma map_flat_map {A B C} (h : B -> C) (g : A -> list B) l :
+  map h (flat_map g l) = flat_map (fun x => map h (g x)) l.
+Proof. induction l; cbn; auto. now rewrite map_app, IHl. Qed.
+Lemma flat_map_map {A B C} (h : A -> B) (g : B -> list C) l :
+  flat_map g (map h l) = flat_map (fun x => g (h x)) l.
+Proof. induction l; cbn; auto. now rewrite IHl. Qed.
+
+Lemma sites_instrs f : map s_ins (sites f) = func_instrs f.
+Proof.
+  unfold sites, func_instrs. rewrite map_flat_map.
+  rewrite <- (map_snd_enum_gen (f_blocks f) 0) at 2. unfold enum.
+  rewrite flat_map_map. apply flat_map_ext. intros [bi k]. unfold block_sites. cbn.
+  rewrite map_map. cbn. apply (map_snd_enum_gen (b_ins k) 0).
+Qed.
+Lemma site_names_defs l :
+  flat_map site_names l = map def_name (instrs_defs (map s_ins l)).
+Proof.
+  induction l as [|s r IH]; cbn; auto. unfold instrs_defs in *. cbn.
+  rewrite map_app, <- IH. unfold site_names. destruct (instr_def (s_ins s)); reflexivity.
+Qed.
+Lemma sites_names f : flat_map site_names (sites f) = map def_name (func_defs f).
+Proof. rewrite site_names_defs, sites_instrs. reflexivity. Qed.
+
+Lemma nodup_snoc {A} (l : list A) a : NoDup l -> ~ In a l -> NoDup (l ++ [a]).
+Proof.
+  induction l as [|x r IH]; cbn; intros H1 H2.
+  - constructor; auto.
+  - inversion H1; subst. constructor.
+    + rewrite in_app_iff. cbn. intuition.
+    + apply IH; auto.
+Qed.
+
+Lemma nodup_by_prefix {A} (g : A -> list string) (base : list string) (L : list A) :
+  NoDup base ->
+  (forall x, List.length (g x) <= 1) ->
+  (forall i x n, nth_error L i = Some x -> In n (g x) -> ~ In n (base ++ flat_map g (firstn i L))) ->
+  NoDup (base ++ flat_map g L).
+Proof.
+  intros Hb Hg. induction L as [|x L IH] using rev_ind; intro H.
+  - cbn. now rewrite app_nil_r.
+  - rewrite flat_map_app. cbn. rewrite app_nil_r.
+    assert (IH' : NoDup (base ++ flat_map g L)).
+    { apply IH. intros i y n Hy Hn.
+      assert (Hi : i < List.length L) by (apply nth_error_Some; congruence).
+      specialize (H i y n). rewrite nth_error_app1 in H by exact Hi.
+      rewrite firstn_app in H. replace (i - List.length L) with 0 in H by lia.
+      cbn in H. rewrite app_nil_r in H. auto. }
+    specialize (Hg x).
+    destruct (g x) as [|n [|n' r]] eqn:E; cbn in Hg; try lia.
+    + now rewrite app_nil_r.
+    + rewrite app_assoc. apply nodup_snoc; auto.
+      specialize (H (List.length L) x n).
+      rewrite nth_error_app2, Nat.sub_diag in H by lia. cbn in H.
+      rewrite firstn_app, Nat.sub_diag, firstn_all in H. cbn in H. rewrite app_nil_r in H.
+      apply H; auto. rewrite E. now left.
+Qed.
+
+Lemma mem_str_false s l : mem_str s l = false -> ~ In s l.
+Proof. intros H1 H2. apply mem_str_In in H2. congruence. Qed.
+
+Section S.
+Variable vx : vfixes.
+Variable m : modul.
+Variable f : func.
+Variable st : vstate.
+Hypothesis HV : verify_function vx m f st = Ok tt.
+
+Lemma v_bnames : NoDup (map b_name (f_blocks f)).
+Proof.
+  destruct (verify_parts vx m f st HV) as (H & _).
+  pose proof (nodup_by_prefix (fun k => [b_name k]) [] (f_blocks f)) as P. cbn in P.
+  assert (E : forall l, flat_map (fun k : block => [b_name k]) l = map b_name l)
+    by (induction l; cbn; congruence).
+  rewrite E in P. apply P; auto; [constructor|].
+  intros i k n Hk [<-|[]]. rewrite E.
+  pose proof (all_ok_spec _ _ H _ (nth_enum _ _ _ Hk)) as C. unfold check_block_head in C.
+  apply bind_ok_unit in C. destruct C as [C _]. apply assert_ok in C.
+  apply negb_true_iff in C. unfold bnames in C. rewrite firstn_map in C.
+  now apply mem_str_false.
+Qed.
+
+Lemma v_names : wf_names f.
+Proof.
+  unfold wf_names. rewrite <- sites_names.
+  destruct (verify_parts vx m f st HV) as (_ & _ & _ & _ & _ & H).
+  apply nodup_by_prefix.
+  - exact v_bnames.
+  - intro s. unfold site_names. destruct (instr_def (s_ins s)); cbn; lia.
+  - intros i s n Hs Hn.
+    pose proof (all_ok_spec _ _ H _ (nth_enum _ _ _ Hs)) as C. unfold verify_instruction in C.
+    apply bind_ok_unit in C. destruct C as [C _].
+    unfold site_names in Hn. destruct (instr_def (s_ins s)) as [d|]; [|contradiction].
+    destruct Hn as [<-|[]]. apply assert_ok in C. apply negb_true_iff in C.
+    apply mem_str_false in C. exact C.
+Qed.
+End S.
+
+
+(* what the verifier checks of the typing clause: everything except the operand type of Unop,
+   the pointer type of CopyBlob operands and of callees (the constructors of ir.py check those) *)
+Definition instr_typed_v (m : modul) (f : func) (i : instr) : Prop :=
+  match i with
+  | IUnop _ _ _ _ _ | ICopyBlob _ _ _ => True
+  | ICallF _ _ t c args => call_ok m f c args (Some t)
+  | ICallP c args => call_ok m f c args None
+  | _ => instr_typed m f i
+  end.
+Definition wf_types_v (m : modul) (f : func) : Prop :=
+  forall s, In s (sites f) -> instr_typed_v m f (s_ins s).
+(* dominance is checked for the FIRST input block carrying the value only *)
+Definition wf_dom_phi_first (f : func) : Prop :=
+  forall s v n t ins, In s (sites f) -> s_ins s = IPhi v n t ins ->
+  forall pb w r, find (fun p => vref_eqb (snd p) (Loc w)) ins = Some (pb, r) ->
+    exists bj q t', def_site f w = Some (bj, q, t') /\ dominates (cfg f) 0 bj (bidx f pb).
+Definition wf_defined_loc (f : func) : Prop :=
+  forall s, In s (sites f) -> forall r, In r (instr_uses (s_ins s)) ->
+    match r with Loc v => exists d, def_site f v = Some d | Unres _ => False | _ => True end.
+
+Lemma find_filter_head {A} (p : A -> bool) l x :
+  find p l = Some x -> exists r, filter p l = x :: r.
+Proof.
+  induction l as [|y l IH]; cbn; [discriminate|].
+  destruct (p y) eqn:E; intro H; [injection H as ->; eauto|auto].
+Qed.
+
+Lemma all_true_spec {A} (g : A -> result bool) l :
+  all_true g l = Ok true -> forall x, In x l -> g x = Ok true.
+Proof.
+  induction l as [|y l IH]; cbn; [tauto|].
+  destruct (g y) as [[]| | |] eqn:E; cbn; try discriminate.
+  intros H x [<-|Hx]; auto.
+Qed.
+
+Lemma site_in_block f s : In s (sites f) -> In (s_ins s) (b_ins (s_blk s)).
+Proof.
+  unfold sites. rewrite in_flat_map. intros ((bi, k) & H1 & H2).
+  unfold block_sites in H2. apply in_map_iff in H2. destruct H2 as ((p, i) & E & Hin).
+  subst s. cbn. apply in_combine_r in Hin. exact Hin.
+Qed.
+
+Section S.
+Variable vx : vfixes.
+Variable m : modul.
+Variable f : func.
+Variable st : vstate.
+Hypothesis HV : verify_function vx m f st = Ok tt.
+
+Lemma check_call_sound c args rt : check_call m f c args rt = Ok tt -> call_ok m f c args rt.
+Proof.
+  unfold check_call, call_ok. destruct c; auto.
+  destruct (sig_of m name) as [[ats r]|]; auto. intro C.
+  apply bind_ok_unit in C. destruct C as [C1 C]. apply check_ok in C1; [|discriminate].
+  apply bind_ok_unit in C. destruct C as [C2 C3]. apply check_ok in C2; [|discriminate].
+  apply check_ok in C3; [|discriminate]. split.
+  - destruct rt, r; try discriminate; auto. apply ty_eqb_spec in C1. congruence.
+  - now apply args_typed.
+Qed.
+
+(* the terminator of a block, as seen by the first loop of the verifier *)
+Lemma block_last s : In s (sites f) -> is_terminator (s_ins s) = true ->
+  exists body, rev (b_ins (s_blk s)) = s_ins s :: body.
+Proof.
+  intros Hs Ht. destruct (verify_parts vx m f st HV) as (H & _).
+  pose proof (all_ok_spec _ _ H _ (sites_block f s Hs)) as C. unfold check_block_head in C.
+  apply bind_ok_unit in C. destruct C as [_ C].
+  pose proof (site_in_block f s Hs) as Hin. apply in_rev in Hin.
+  destruct (rev (b_ins (s_blk s))) as [|t body]; [discriminate|].
+  apply bind_ok_unit in C. destruct C as [_ C].
+  apply bind_ok_unit in C. destruct C as [C2 _]. apply assert_ok in C2.
+  destruct Hin as [->|Hin]; [eauto|].
+  rewrite forallb_forall in C2. apply C2 in Hin. rewrite Ht in Hin. discriminate.
+Qed.
+
+Lemma v_types : wf_types_v m f.
+Proof.
+  intros s Hs.
+  destruct (verify_parts vx m f st HV) as (H1 & _ & _ & _ & _ & H).
+  destruct (enum_In _ _ Hs) as [idx Hidx].
+  pose proof (all_ok_spec _ _ H _ Hidx) as C. unfold verify_instruction in C.
+  apply bind_ok_unit in C. destruct C as [_ C].
+  apply bind_ok_unit in C. destruct C as [C _].
+  pose proof (all_ok_spec _ _ H1 _ (sites_block f s Hs)) as B. unfold check_block_head in B.
+  apply bind_ok_unit in B. destruct B as [_ B].
+  destruct (s_ins s) eqn:E; cbn; auto; cbn in C.
+  - apply bind_ok_unit in C. destruct C as [Ca Cb].
+    apply check_ok in Ca; [|discriminate]. apply check_ok in Cb; [|discriminate].
+    split; now apply ty_is_sound.
+  - apply check_ok in C; [|discriminate]. now apply ty_is_sound.
+  - apply check_ok in C; [|discriminate]. now apply ty_is_sound.
+  - apply assert_ok in C. rewrite forallb_forall in C. intros pb r Hin.
+    apply (C (pb, r)) in Hin. now apply ty_is_sound.
+  - now apply check_call_sound.
+  - now apply check_call_sound.
+  - apply check_ok in C; [|discriminate]. now apply opt_ty_eqb_eq.
+  - (* return *)
+    destruct (block_last s Hs) as [body Hb]; [rewrite E; reflexivity|].
+    rewrite Hb, E in B.
+    apply bind_ok_unit in B. destruct B as [_ B].
+    apply bind_ok_unit in B. destruct B as [_ B].
+    destruct (f_ret f) as [rt|]; [|discriminate].
+    apply check_ok in B; [|discriminate]. exists rt. split; auto. now apply opt_ty_eqb_eq.
+  - (* exit *)
+    destruct (block_last s Hs) as [body Hb]; [rewrite E; reflexivity|].
+    rewrite Hb, E in B.
+    apply bind_ok_unit in B. destruct B as [_ B].
+    apply bind_ok_unit in B. destruct B as [_ B].
+    apply assert_ok in B. destruct (f_ret f); [discriminate|reflexivity].
+Qed.
+
+Lemma use_checked s r : uses_cover f st -> In s (sites f) -> In r (instr_uses (s_ins s)) ->
+  instruction_dominates vx f r s = Ok true.
+Proof.
+  intros HC Hs Hr.
+  destruct (verify_parts vx m f st HV) as (_ & _ & _ & _ & _ & H).
+  destruct (enum_In _ _ Hs) as [idx Hidx].
+  pose proof (all_ok_spec _ _ H _ Hidx) as C. unfold verify_instruction in C.
+  apply bind_ok_unit in C. destruct C as [_ C].
+  apply bind_ok_unit in C. destruct C as [_ C].
+  apply bind_ok_unit in C. destruct C as [_ C].
+  pose proof (all_ok_spec _ _ C _ (HC s Hs _ Hr)) as D. cbn beta in D.
+  destruct (instruction_dominates vx f r s) as [[]| | |]; cbn in D; try discriminate; auto.
+Qed.
+
+Lemma v_defined_loc : uses_cover f st -> wf_defined_loc f.
+Proof.
+  intros HC s Hs r Hr. pose proof (use_checked s r HC Hs Hr) as D.
+  destruct r; auto; cbn in D; [|discriminate].
+  destruct (def_site f v); [eauto|discriminate].
+Qed.
+
+Lemma v_dom_phi_first : uses_cover f st -> wf_dom_phi_first f.
+Proof.
+  intros HC s v n t ins Hs E pb w r F.
+  assert (Hr : In (Loc w) (instr_uses (s_ins s))).
+  { rewrite E. cbn. apply find_some in F. destruct F as [F1 F2]. cbn in F2.
+    apply vref_eqb_spec in F2. subst r. apply (in_map snd) in F1. exact F1. }
+  pose proof (use_checked s (Loc w) HC Hs Hr) as D. unfold instruction_dominates in D.
+  destruct (def_site f w) as [[[bj q] t']|]; [|discriminate].
+  exists bj, q, t'. split; auto. rewrite E, F in D.
+  cbv zeta in D.
+  assert (V : (if Nat.ltb (bidx f pb) (List.length (f_blocks f))
+               then Ok (dominates_plain f bj q (bidx f pb) (block_len f (bidx f pb) - 1))
+               else Internal KeyError) = Ok true).
+  { destruct (vx_phi_all vx).
+    - destruct (find_filter_head _ _ _ F) as [rest Hf]. rewrite Hf in D.
+      exact (all_true_spec _ _ D pb (or_introl eq_refl)).
+    - exact D. }
+  match type of V with context [if ?c then _ else _] => destruct c end; [|discriminate].
+  injection V as V. apply dominates_plain_spec in V. destruct V as [[-> _]|[_ V]]; auto.
+  apply dominates_self.
+Qed.
+End S.
+
+(* ---------------------------------------------------------------- the soundness theorem *)
+(* well-formedness minus the recorded gaps of the verifier: wf_phi_preds only as "every predecessor
+   has an input" (extra inputs / inputs of former predecessors are not seen), wf_dom_phi only for the
+   first input block carrying a value, typing without Unop / CopyBlob / callee operand types, and —
+   through the hypothesis uses_cover — no comparison of the stored uses with the operands.
+   wf_block_ids, wf_def_ids, wf_targets and the range of Param / Glob references are representation
+   invariants of tools/irimport.py (ids are assigned by the importer), not properties of ppci objects. *)
+Definition wf_function_except_gaps (m : modul) (f : func) : Prop :=
+  wf_entry f /\ wf_shape f /\ wf_reachable f /\ wf_names f /\ wf_defined_loc f /\ wf_dom f /\
+  wf_dom_phi_first f /\ wf_phi_preds_weak f /\ wf_types_v m f.
+
+Theorem verifier_sound vx m f st :
+  verify_function vx m f st = Ok tt -> uses_cover f st -> wf_function_except_gaps m f.
 Proof.
   intros HV HC. repeat split.
   - eapply v_entry; eauto.
   - eapply v_shape; eauto.
   - eapply v_reachable; eauto.
+  - eapply v_names; eauto.
+  - eapply v_defined_loc; eauto.
   - eapply v_dom; eauto.
+  - eapply v_dom_phi_first; eauto.
   - eapply v_phi_preds_weak; eauto.
+  - eapply v_types; eauto.
+Qed.
+
+(* it is a relaxation of the specification *)
+Lemma wf_function_relax m f : wf_function m f -> wf_function_except_gaps m f.
+Proof.
+  intros (H1 & _ & H3 & _ & H5 & _ & H7 & H8 & H9 & H10 & H11 & H12). repeat split; auto.
+  - intros s Hs r Hr. specialize (H8 s Hs r Hr). destruct r; cbn in *; auto.
+  - intros s v n t ins Hs E pb w r F. apply find_some in F. destruct F as [F1 F2]. cbn in F2.
+    apply vref_eqb_spec in F2. subst r. eapply H10; eauto.
+  - intros s v n t ins Hs E pb Hp. apply (H11 s v n t ins Hs E). exact Hp.
+  - intros s Hs. specialize (H12 s Hs). destruct (s_ins s); cbn in *; tauto.
 Qed.
 
 (* ---------------------------------------------------------------- what the verifier misses *)
@@ -169,7 +478,7 @@ Definition w1 : func := mk_func "f" BGlobal (Some I32) []
                        IReturn (Loc 2)]].
 Definition w1_st := mk_vstate [[[]; [Loc 1]; [Loc 2]]] [[]].
 Lemma w1_accepted_not_wf :
-  verify_function (mod_of w1) w1 w1_st = Ok tt /\ uses_cover w1 w1_st /\ ~ wf_phi_preds w1.
+  verify_function v_as_found (mod_of w1) w1 w1_st = Ok tt /\ uses_cover w1 w1_st /\ ~ wf_phi_preds w1.
 Proof.
   split; [vm_compute; reflexivity|]. split.
   - intros s Hs r Hr. cbn in Hs.
@@ -190,7 +499,7 @@ Definition w2 : func := mk_func "f" BGlobal (Some I32) []
                        IReturn (Loc 1)]].
 Definition w2_st := mk_vstate [[[]; []; [Loc 1]]] [[]].
 Lemma w2_accepted_not_wf :
-  verify_function (mod_of w2) w2 w2_st = Ok tt /\ ~ wf_dom w2.
+  verify_function v_as_found (mod_of w2) w2 w2_st = Ok tt /\ ~ wf_dom w2.
 Proof.
   split; [vm_compute; reflexivity|]. intro H.
   specialize (H (mk_site 0 (hd (mk_block 1 "" []) (f_blocks w2)) 0
@@ -206,7 +515,7 @@ Definition w3 : func := mk_func "f" BGlobal (Some I32) []
   [mk_block 1 "entry" [IConst 1 "c" I8 (CInt 1); IUnop 2 "u" I32 Neg (Loc 1); IReturn (Loc 2)]].
 Definition w3_st := mk_vstate [[[]; [Loc 1]; [Loc 2]]] [[]].
 Lemma w3_accepted_not_wf :
-  verify_function (mod_of w3) w3 w3_st = Ok tt /\ uses_cover w3 w3_st /\ ~ wf_types (mod_of w3) w3.
+  verify_function v_as_found (mod_of w3) w3 w3_st = Ok tt /\ uses_cover w3 w3_st /\ ~ wf_types (mod_of w3) w3.
 Proof.
   split; [vm_compute; reflexivity|]. split.
   - intros s Hs r Hr. cbn in Hs.
@@ -216,6 +525,35 @@ Proof.
     cbn in H. specialize (H (or_intror (or_introl eq_refl))). vm_compute in H. discriminate H.
 Qed.
 
+
+(* W4: a value carried by two phi inputs is checked for the first input block only *)
+Definition w4 : func := mk_func "f" BGlobal (Some I32) [("a", I32)]
+  [mk_block 1 "entry" [IConst 1 "c" I32 (CInt 1); ICJump (Param 0) Ceq (Loc 1) 2 3];
+   mk_block 2 "a" [IConst 2 "x" I32 (CInt 5); IJump 4];
+   mk_block 3 "b" [IJump 4];
+   mk_block 4 "j" [IPhi 3 "p" I32 [(2%positive, Loc 2); (3%positive, Loc 2)]; IReturn (Loc 3)]].
+Definition w4_st := mk_vstate [[[]; [Param 0; Loc 1]]; [[]; []]; [[]]; [[Loc 2]; [Loc 3]]]
+                              [[]; [1%positive]; [1%positive]; [2%positive; 3%positive]].
+Lemma w4_accepted_not_wf :
+  verify_function v_as_found (mod_of w4) w4 w4_st = Ok tt /\ uses_cover w4 w4_st /\ ~ wf_dom_phi w4.
+Proof.
+  split; [vm_compute; reflexivity|]. split.
+  - intros s Hs r Hr. cbn in Hs.
+    repeat (destruct Hs as [<-|Hs]; [cbn in *; tauto|]). destruct Hs.
+  - intro H.
+    specialize (H (mk_site 3 (nth 3 (f_blocks w4) (mk_block 1 "" [])) 0
+                           (IPhi 3 "p" I32 [(2%positive, Loc 2); (3%positive, Loc 2)]))
+                  3%positive "p" I32 [(2%positive, Loc 2); (3%positive, Loc 2)]).
+    cbn in H.
+    destruct (H (or_intror (or_intror (or_intror (or_intror (or_intror (or_introl eq_refl))))))
+                eq_refl 3%positive 2%positive (or_intror (or_introl eq_refl)))
+      as (bj & q & t & E & D).
+    vm_compute in E. injection E as <- <- <-.
+    assert (P : path (cfg w4) 0 [0; 2] 2).
+    { apply path_step with (w := 2); [|apply path_one]. split; vm_compute; auto. }
+    apply D in P. cbn in P. intuition discriminate.
+Qed.
+
 (* a well-formed function that the verifier accepts (hypotheses are inhabited) *)
 Definition w0 : func := mk_func "f" BGlobal (Some I32) [("a", I32)]
   [mk_block 1 "entry" [IConst 1 "c" I32 (CInt 1); ICJump (Param 0) Ceq (Loc 1) 2 3];
@@ -223,5 +561,109 @@ Definition w0 : func := mk_func "f" BGlobal (Some I32) [("a", I32)]
    mk_block 3 "join" [IPhi 3 "p" I32 [(1%positive, Loc 1); (2%positive, Loc 2)]; IReturn (Loc 3)]].
 Definition w0_st := mk_vstate [[[]; [Param 0; Loc 1]]; [[Param 0]; []]; [[Loc 1; Loc 2]; [Loc 3]]]
                               [[]; [1%positive]; [1%positive; 2%positive]].
-Lemma w0_ok : verify_function (mod_of w0) w0 w0_st = Ok tt /\ wf_function_b (mod_of w0) w0 = true.
+Lemma w0_ok : verify_function v_as_found (mod_of w0) w0 w0_st = Ok tt /\ wf_function_b (mod_of w0) w0 = true.
 Proof. split; vm_compute; reflexivity. Qed.
+
+(* ---------------------------------------------------------------- the repaired verifier *)
+Lemma vref_mem_In r l : vref_mem r l = true -> In r l.
+Proof.
+  unfold vref_mem. rewrite existsb_exists. intros (x & H1 & H2).
+  apply vref_eqb_spec in H2. now subst.
+Qed.
+
+Definition wf_phi_preds_exact (f : func) : Prop :=
+  forall s v n t ins, In s (sites f) -> s_ins s = IPhi v n t ins ->
+    forall pb, In pb (map fst ins) <-> is_pred f pb (s_blk s).
+Definition wf_unop_typed (f : func) : Prop :=
+  forall s v n t o a, In s (sites f) -> s_ins s = IUnop v n t o a -> ty_of f a = Some t.
+
+Section F.
+Variable vx : vfixes.
+Variable m : modul.
+Variable f : func.
+Variable st : vstate.
+Hypothesis HV : verify_function vx m f st = Ok tt.
+
+(* C03-verifier-uses-match-operands: the hypothesis uses_cover becomes a checked fact *)
+Lemma vf_uses_cover : vx_uses vx = true -> uses_cover f st.
+Proof.
+  intros X s Hs r Hr.
+  destruct (verify_parts vx m f st HV) as (_ & _ & _ & _ & _ & H).
+  destruct (enum_In _ _ Hs) as [idx Hidx].
+  pose proof (all_ok_spec _ _ H _ Hidx) as C. unfold verify_instruction in C.
+  apply bind_ok_unit in C. destruct C as [_ C].
+  apply bind_ok_unit in C. destruct C as [_ C].
+  apply bind_ok_unit in C. destruct C as [C _]. rewrite X in C.
+  apply assert_ok in C. apply andb_true_iff in C. destruct C as [_ C].
+  rewrite forallb_forall in C. apply vref_mem_In. auto.
+Qed.
+
+(* C03-verifier-phi-inputs *)
+Lemma vf_phi_exact : vx_phi_exact vx = true -> wf_phi_preds_exact f.
+Proof.
+  intros X s v n t ins Hs E pb. split; [|eapply v_phi_preds_weak; eauto].
+  intro Hin.
+  destruct (verify_parts vx m f st HV) as (_ & _ & _ & H4 & H5 & _).
+  pose proof (all_ok_spec _ _ H5 _ Hs) as C. unfold check_phi_inputs in C. rewrite E in C.
+  apply bind_ok_unit in C. destruct C as [C _]. rewrite X in C. apply assert_ok in C.
+  apply andb_true_iff in C. destruct C as [C _]. rewrite forallb_forall in C.
+  apply C in Hin.
+  rewrite forallb_forall in H4. specialize (H4 _ (sites_block f s Hs)).
+  unfold preds_match in H4. apply andb_true_iff in H4. destruct H4 as [_ H4].
+  rewrite forallb_forall in H4. apply mem_pos_In in Hin. apply H4 in Hin.
+  apply mem_pos_In in Hin. now apply preds_of_spec.
+Qed.
+
+(* C03-verifier-unop-type *)
+Lemma vf_unop : vx_unop vx = true -> wf_unop_typed f.
+Proof.
+  intros X s v n t o a Hs E.
+  destruct (verify_parts vx m f st HV) as (_ & _ & _ & _ & _ & H).
+  destruct (enum_In _ _ Hs) as [idx Hidx].
+  pose proof (all_ok_spec _ _ H _ Hidx) as C. unfold verify_instruction in C.
+  apply bind_ok_unit in C. destruct C as [_ C].
+  apply bind_ok_unit in C. destruct C as [C _]. rewrite E in C. cbn in C. rewrite X in C.
+  apply check_ok in C; [|discriminate]. now apply ty_is_sound.
+Qed.
+
+(* C03-verifier-phi-dominance-all-inputs *)
+Lemma vf_dom_phi : vx_phi_all vx = true -> uses_cover f st -> wf_dom_phi f.
+Proof.
+  intros X HC s v n t ins Hs E pb w Hin.
+  assert (Hr : In (Loc w) (instr_uses (s_ins s))).
+  { rewrite E. cbn. apply (in_map snd) in Hin. exact Hin. }
+  pose proof (use_checked vx m f st HV s (Loc w) HC Hs Hr) as D.
+  unfold instruction_dominates in D.
+  destruct (def_site f w) as [[[bj q] t']|]; [|discriminate].
+  exists bj, q, t'. split; auto. rewrite E, X in D. cbv zeta in D.
+  assert (Hf : In (pb, Loc w) (filter (fun p => vref_eqb (snd p) (Loc w)) ins)).
+  { apply filter_In. split; auto. cbn. now apply vref_eqb_spec. }
+  destruct (filter (fun p => vref_eqb (snd p) (Loc w)) ins) as [|p0 l0] eqn:EF; [destruct Hf|].
+  pose proof (all_true_spec _ _ D pb (in_map fst _ _ Hf)) as V. cbn beta in V.
+  match type of V with context [if ?c then _ else _] => destruct c end; [|discriminate].
+  injection V as V. apply dominates_plain_spec in V. destruct V as [[-> _]|[_ V]]; auto.
+  apply dominates_self.
+Qed.
+End F.
+
+(* with the four repairs, acceptance needs no hypothesis about the bookkeeping and also gives the
+   exact phi-input clause, phi dominance on every input and the Unop typing *)
+Theorem verifier_fixed_sound m f st :
+  verify_function v_all_fixed m f st = Ok tt ->
+  wf_function_except_gaps m f /\ uses_cover f st /\ wf_phi_preds_exact f /\ wf_dom_phi f /\
+  wf_unop_typed f.
+Proof.
+  intro HV.
+  assert (HC : uses_cover f st) by (eapply vf_uses_cover; eauto).
+  split; [eapply verifier_sound; eauto|]. split; auto. split; [eapply vf_phi_exact; eauto|].
+  split; [eapply vf_dom_phi; eauto | eapply vf_unop; eauto].
+Qed.
+
+(* the gap witnesses are rejected by the repaired verifier *)
+Lemma witnesses_rejected :
+  verify_function v_all_fixed (mod_of w1) w1 w1_st <> Ok tt /\
+  verify_function v_all_fixed (mod_of w2) w2 w2_st <> Ok tt /\
+  verify_function v_all_fixed (mod_of w3) w3 w3_st <> Ok tt /\
+  verify_function v_all_fixed (mod_of w4) w4 w4_st <> Ok tt /\
+  verify_function v_all_fixed (mod_of w0) w0 w0_st = Ok tt.
+Proof. repeat split; vm_compute; congruence. Qed.
